@@ -9,7 +9,7 @@ package main
 //	type anyFieldC[T any] func(string, T) Field
 //	func (f anyFieldC[T]) Any(key string, val any) Field { v, _ := val.(T); return f(key, v) }
 //	func Any(key string, value interface{}) Field {
-//	    var c interface{ Any(string, any) Field }
+//	    var c interface{ Any(string, any) Field }       (or the same declaration at package level: see below)
 //	    switch value.(type) { case T: c = anyFieldC[T](Ctor) ... default: c = anyFieldC[any](Reflect) }
 //	    return c.Any(key, value) }
 //
@@ -21,6 +21,7 @@ package main
 import (
 	"fmt"
 	"go/ast"
+	"go/token"
 	"path/filepath"
 	"reflect"
 	"strings"
@@ -83,13 +84,59 @@ func genC03Any(repo, out, harness string) error {
 	if fd == nil {
 		return fmt.Errorf("func Any not found")
 	}
-	if len(fd.Body.List) != 3 || s.src(fd.Body.List[0]) != "var c interface{ Any(string, any) Field }" ||
-		s.src(fd.Body.List[2]) != "return c.Any(key, value)" {
-		return s.errf(fd.Body, "Any is not `var c ..; switch value.(type) {..}; return c.Any(key, value)`")
+	// The dispatch variable: `return <c>.Any(key, value)`, <c> an identifier declared as
+	// `var <c> interface{ Any(string, any) Field }` -- either by Any's first statement (its own frame) or
+	// at package level.  WHERE it lives does not change what a call of Any computes when it runs alone
+	// (this table); that it must live in Any's own frame for Any to be a function of its arguments under
+	// concurrent calls is the obligation over Gen/CtorEffects.v (gen/c03_effects.go, C03_constructors_pure).
+	const cType = "interface{ Any(string, any) Field }"
+	body := fd.Body.List
+	if len(body) < 2 {
+		return s.errf(fd.Body, "Any is not `[var c ..;] switch value.(type) {..}; return c.Any(key, value)`")
 	}
-	ts, ok := fd.Body.List[1].(*ast.TypeSwitchStmt)
+	rs, isRet := body[len(body)-1].(*ast.ReturnStmt)
+	cv := ""
+	if isRet && len(rs.Results) == 1 {
+		if ce, ok := rs.Results[0].(*ast.CallExpr); ok {
+			if sel, ok := ce.Fun.(*ast.SelectorExpr); ok {
+				if id, ok := sel.X.(*ast.Ident); ok && s.src(rs.Results[0]) == id.Name+".Any(key, value)" {
+					cv = id.Name
+				}
+			}
+		}
+	}
+	if cv == "" || cv == "key" || cv == "value" {
+		return s.errf(body[len(body)-1], "Any does not end in `return c.Any(key, value)`")
+	}
+	switch len(body) {
+	case 3:
+		if s.src(body[0]) != "var "+cv+" "+cType {
+			return s.errf(body[0], "Any's first statement is not `var %s %s`", cv, cType)
+		}
+	case 2:
+		found := false
+		for _, d := range s.files[0].f.Decls {
+			if gd, ok := d.(*ast.GenDecl); ok && gd.Tok == token.VAR {
+				for _, sp := range gd.Specs {
+					vs := sp.(*ast.ValueSpec)
+					if len(vs.Names) == 1 && vs.Names[0].Name == cv {
+						if len(vs.Values) != 0 || vs.Type == nil || s.src(vs.Type) != cType {
+							return s.errf(vs, "the dispatch variable %s is not declared as `var %s %s`", cv, cv, cType)
+						}
+						found = true
+					}
+				}
+			}
+		}
+		if !found {
+			return s.errf(fd.Body, "Any dispatches through %s, which is declared neither by Any's first statement nor at package level in field.go", cv)
+		}
+	default:
+		return s.errf(fd.Body, "Any is not `[var c ..;] switch value.(type) {..}; return c.Any(key, value)`")
+	}
+	ts, ok := body[len(body)-2].(*ast.TypeSwitchStmt)
 	if !ok || ts.Init != nil || s.src(ts.Assign) != "value.(type)" {
-		return s.errf(fd.Body.List[1], "Any's second statement is not `switch value.(type)`")
+		return s.errf(body[len(body)-2], "Any's statement before the return is not `switch value.(type)`")
 	}
 	type entry struct{ goT, coqT, ctor string }
 	var tbl []entry
@@ -104,7 +151,7 @@ func genC03Any(repo, out, harness string) error {
 			if i != len(ts.Body.List)-1 {
 				return s.errf(cl, "default is not the last clause")
 			}
-			if body != "c = anyFieldC[any](Reflect)" {
+			if body != cv+" = anyFieldC[any](Reflect)" {
 				return s.errf(cl, "default arm is not Reflect")
 			}
 			sawDefault = true
@@ -114,9 +161,9 @@ func genC03Any(repo, out, harness string) error {
 			return s.errf(cl, "case with several types")
 		}
 		goT := s.src(cl.List[0])
-		pre := "c = anyFieldC[" + goT + "]("
+		pre := cv + " = anyFieldC[" + goT + "]("
 		if !strings.HasPrefix(body, pre) || !strings.HasSuffix(body, ")") {
-			return s.errf(cl.Body[0], "arm is not `c = anyFieldC[%s](Ctor)`", goT)
+			return s.errf(cl.Body[0], "arm is not `%s = anyFieldC[%s](Ctor)`", cv, goT)
 		}
 		ctor := body[len(pre) : len(body)-1]
 		if strings.ContainsAny(ctor, " ([.") {
